@@ -108,6 +108,7 @@ def run_family(chk, name, behs, args, stats, jobs=8, timeout=2400):
             raise vf.ToolError('driver-side problem in %s case %d: %s' % (name, i, json.dumps(f)[:400]))
     failing = [(i, own) for i, own, _ in failing if own][:100]
     # only repeatable failures / crashes count: run each of them once more, alone
+    crashes = crashes[:25]   # a change that stops every case is shown by the first few
     redo = [i for i, _ in failing] + [i for i, _, _ in crashes]
     again, crashed_again = {}, {}
     if redo:
